@@ -336,11 +336,41 @@ def check_cleanup(ctx: Check, tree: Tree) -> None:
             ctx.verdict(ok2, "R-DROP", f"{POOLSUM}.cleanup::return-indices", tree.loc(ret), "PoolSum.cleanup rebuilds the sum with all retained indices")
 
 
+def check_binding_aware_substitution(ctx: Check, tree: Tree) -> None:
+    """R-BINDSUBST: wherever a binder class substitutes values for its OWN index symbols into
+    the summand it must use the binding-aware primitive (`subs`, which consults the
+    `_eval_subs` guard of nested sums).  `xreplace` is purely structural: it also rewrites
+    an index of the same name that is bound by a nested PoolSum."""
+    cls = tree.cls(POOLSUM)
+    n = 0
+    for name, m in sorted(cls.methods.items()):
+        rd = RD(m.node)
+        for node in walk_function(m.node):
+            if not (isinstance(node, ast.Call) and isinstance(node.func, ast.Attribute) and node.func.attr in {"subs", "xreplace", "replace"}):
+                continue
+            recv = unparse(node.func.value)
+            if recv not in {"self.expression", "self.args[0]"} or not node.args:
+                continue
+            # does the mapping consist of this sum's own index symbols?
+            srcs = [unparse(node.args[0])] + [unparse(d.value) for d in rd.closure(rd.uses(node.args[0])) if d.value is not None]
+            iter_srcs = [unparse(d.node.iter) for d in rd.closure(rd.uses(node.args[0])) if d.kind == "for" and hasattr(d.node, "iter")]
+            if not any("self.indices" in t for t in srcs + iter_srcs):
+                continue
+            n += 1
+            ok = node.func.attr == "subs"
+            ctx.verdict(ok, "R-BINDSUBST", f"{m.qual}::{node.func.attr} of own indices", tree.loc(node),
+                        f"PoolSum.{name}: `{unparse(node)[:60]}` substitutes the sum's own index symbols into the summand with {node.func.attr}()",
+                        None if ok else "xreplace ignores binding: PoolSum(i + PoolSum(i**2, (i, (1, 2))), (i, (3,))).cleanup() rewrites the inner, shadowed index -> value 21 instead of 8")
+    if n < 2:
+        raise AnalysisError(f"only {n} substitutions of own indices found in PoolSum (evaluate and cleanup confirmed)")
+
+
 def run(ctx: Check, tree: Tree) -> None:
     ctx.decided += [
         "R-BINDER: every expression class that removes bound symbols from free_symbols guards substitution of those symbols",
         "R-SUMSHAPE: PoolSum.evaluate is Add over itertools.product of all pools with zip(index symbols, combination) substituted into the summand; doit delegates to it",
         "R-FREE: the subtrahend of PoolSum.free_symbols is exactly the index symbols",
+        "R-BINDSUBST: PoolSum substitutes its own index symbols into the summand with the binding-aware subs(), never with xreplace()",
         "R-DROP: on every path of cleanup() an index is retained, substituted by its single value, or compensated by its pool size",
     ]
     ctx.not_decided += ["evaluation for arbitrary summands (SymPy's subs on the summand)", "three-level nesting inside HelicityModel.expression"]
@@ -349,3 +379,4 @@ def run(ctx: Check, tree: Tree) -> None:
     ctx.section(check_free_symbols, ctx, tree)
     ctx.section(check_evaluate, ctx, tree)
     ctx.section(check_cleanup, ctx, tree)
+    ctx.section(check_binding_aware_substitution, ctx, tree)
